@@ -173,6 +173,39 @@ def position_chunk(items):
     return out
 
 
+LIMIT_POOL = [("two", 'strings: $a = "abcd" $b = "dxyz" condition: $a and $b'), ("ofset", 'strings: $a1 = "abcd" $a2 = "qq" $b = "yz" condition: 2 of ($a*, $b)'),
+              ("anon", 'strings: $ = "abcd" $ = "cdxy" condition: any of them'), ("abcd", 'strings: $a = "abcd" condition: #a == 2'), ("loop", 'strings: $a = "bc" condition: for any i in (1..#a) : (@a[i] > 3)'),
+              ("nostr", 'condition: filesize > 8'), ("noisy1", 'strings: $q = "q" condition: #q > 2'), ("noisy2", 'strings: $p = "zz" $q = "q" condition: $q or $p'),
+              ("noisy3", 'strings: $r = /q[qr]/ condition: $r')]
+LIMIT_BUFS = [b"abcd dxyz yz qq " + b"q" * 12 + b" abcd dxyz bc bc yz cdxy", b"q" * 9 + b"abcd dxyz yz abcd", b"abcd dxyz yz bc bc", b"zz " + b"qr" * 10 + b" abcd cdxy dxyz"]
+_alone_small = {}
+def limit_chunk(items):
+    """(e) company that exceeds the per-string match limit (build with the limit scaled to 8, callback answers CONTINUE): the bookkeeping of the overflowing
+    string must not touch the strings of other rules"""
+    w = yv.get_worker("small")
+    out = []
+    D = dict(LIMIT_POOL)
+    for names in items:
+        adds = [("-", "\n".join("rule r_%s { %s }" % (n, D[n]) for n in names))]
+        err, tr, rcs = compile_and_trace(w, adds, LIMIT_BUFS)
+        label = "+".join(names)
+        if err is not None:
+            out.append((label, "C05:set-does-not-compile", dict(errors=err, label=label))); continue
+        bad = None
+        for n in names:
+            if n not in _alone_small:
+                e2, t2, r2 = compile_and_trace(w, [("-", "rule r_%s { %s }" % (n, D[n]))], LIMIT_BUFS)
+                _alone_small[n] = t2.get("default:r_" + n)
+            got = tr.get("default:r_" + n)
+            if got != _alone_small[n]:
+                bi = [k for k, (a, b) in enumerate(zip(got or [], _alone_small[n] or [])) if a != b]
+                bad = ("C05:result-depends-on-company:match-limit-of-another-rule:rule=%s" % n, dict(rule=n, company=label, buffer_hex=LIMIT_BUFS[bi[0]].hex() if bi else None,
+                                                                                                   alone=_alone_small[n][bi[0]] if bi else None, together=got[bi[0]] if bi else got))
+                break
+        out.append((label, bad[0] if bad else None, bad[1] if bad else None))
+    return out
+
+
 def distribution_cases():
     """a 4-rule namespace text cut at rule boundaries into <= 3 add calls; and nested includes"""
     P = {r["name"]: r for r in pool()}
@@ -268,6 +301,15 @@ def main():
             npos += 1; ck.cov["evaluations"] += len(bufs)
             if sig: ck.violation(sig, det)
     ck.sub("position", cases=npos, filler_counts=list(Ns), targets=len(targets))
+    # ---- (e) company that exceeds the match limit
+    names = [n for n, _ in LIMIT_POOL]
+    litems = [list(t) for k in (2, 3) for t in itertools.permutations(names, k) if any(x.startswith("noisy") for x in t)]
+    nlim = 0
+    for res in yv.pmap(limit_chunk, yv.chunked(litems, 40), ck, prebuild=("small",)):
+        for (label, sig, det) in res:
+            nlim += 1; ck.cov["evaluations"] += len(LIMIT_BUFS)
+            if sig: ck.violation(sig, det)
+    ck.sub("match-limit-company", ordered_rule_sets=nlim, build="scaled limits (8 matches per string)")
     # ---- (c) automaton sub-space
     strs = ["".join(t) for L in (3, 4, 5) for t in itertools.product("ab", repeat=L)]
     asets = [(s,) for s in strs]
@@ -296,7 +338,7 @@ def main():
     ck.cov["rule"] = ("(a) every ordered sub-multiset of size<=3 of a %d-rule pool (dependencies first), in one namespace and alternating over two, %d buffers: each rule's "
                       "message incl. match lists vs its solo compile; (b) 11 source distributions of a 4-rule namespace (add calls, nested includes); (c) every ordered "
                       "pair and every 3-subset (3 orders; thorough: all orders + 4-subsets) of the 56 strings of {a,b}^3..5, one rule per string, over all buffers of "
-                      "{a,b}^<=10 vs a naive search; (d) each pool rule after N filler rules of four kinds, N around 8 / 64 / 128 / 256, one or two namespaces; non-trivial = rule sets compared + (set, buffer) pairs with an expected match") % (len(P), len(bufs))
+                      "{a,b}^<=10 vs a naive search; (e) every ordered pair / triple of a 9-rule pool containing a rule whose string exceeds the match limit (scaled build); (d) each pool rule after N filler rules of four kinds, N around 8 / 64 / 128 / 256, one or two namespaces; non-trivial = rule sets compared + (set, buffer) pairs with an expected match") % (len(P), len(bufs))
     ck.finish()
 
 
